@@ -151,6 +151,16 @@ class Grouping:
                     out.add(f"y{a}")
         return sorted(out)
 
+    def strong_coupling_read_by_another_strong_group(self):
+        """True when a coupling computed inside one strongly coupled group is read by a discipline of another one."""
+        comps = [set(c) for c in self.sccs() if len(c) > 1 or (c[0], c[0]) in self.edges]
+        where = {g: k for k, c in enumerate(comps) for g in c}
+        for a, b in self.system.edges:
+            ga, gb = self.gid[a], self.gid[b]
+            if ga in where and gb in where and where[ga] != where[gb]:
+                return True
+        return False
+
     def has_strong_coupling(self):
         return bool(self.strong_couplings())
 
